@@ -86,6 +86,12 @@ fn grid(tier: Tier) -> Vec<C18World> {
         w.op = op.into();
         g.push(w);
     }
+    for (kind, n, op, stack) in [("boolean_nested", 100_000u64, "union", 8u64 << 20), ("boolean_nested", 60_000, "intersection", 2 << 20),
+        ("boolean_nested", 100_000, "difference", 8 << 20), ("boolean_grid", 100_000, "xor", 2 << 20), ("boolean_grid", 120_000, "union", 8 << 20)] {
+        let mut w = base(kind, stack, n, "asc", "drop");
+        w.op = op.into();
+        g.push(w);
+    }
     if tier == Tier::Thorough {
         for td in TEARDOWNS.iter() {
             for sh in ["asc", "desc", "zigzag"] {
@@ -395,6 +401,52 @@ fn stairs_scenario(w: &C18World) {
     marker(&format!("returned polygons={}", r.0.len()));
 }
 
+fn square(cx: f64, cy: f64, h: f64) -> LineString<f64> {
+    LineString(vec![Coord { x: cx - h, y: cy - h }, Coord { x: cx + h, y: cy - h }, Coord { x: cx + h, y: cy + h }, Coord { x: cx - h, y: cy + h }, Coord { x: cx - h, y: cy - h }])
+}
+
+/// `n` concentric square rings (n/2 nested annuli): contours nested n deep, a sweep line that fills from the
+/// outside inwards (zig-zag insertion order). union/xor: full sweep; intersection/difference with a box over the
+/// left half: the sweep stops early at the centre with all 2n horizontal segments live.
+fn nested_scenario(w: &C18World) {
+    let n = w.n.max(2);
+    let mut polys = Vec::new();
+    let mut i = 0;
+    while i + 1 < n {
+        let (outer, inner) = ((n - i) as f64, (n - i - 1) as f64);
+        polys.push(Polygon::new(square(0.0, 0.0, outer + 0.25), vec![square(0.0, 0.0, inner + 0.75)]));
+        i += 2;
+    }
+    let a = MultiPolygon(polys);
+    marker(&format!("boolean nested {} rings={} edges={}", w.op, n, 4 * n));
+    let big = (n + 2) as f64;
+    let half = Polygon::new(LineString(vec![Coord { x: -big, y: -big }, Coord { x: 0.0, y: -big }, Coord { x: 0.0, y: big }, Coord { x: -big, y: big }, Coord { x: -big, y: -big }]), vec![]);
+    let dot = Polygon::new(square(0.0, 0.0, 0.125), vec![]);
+    let r = match w.op.as_str() {
+        "intersection" => a.intersection(&half),
+        "difference" => half.difference(&a),
+        "xor" => a.xor(&dot),
+        _ => a.union(&dot),
+    };
+    marker(&format!("returned polygons={}", r.0.len()));
+}
+
+/// `n` tiny separate squares on a grid (many parts, many contours, shallow sweep line), combined with a shifted copy.
+fn grid_scenario(w: &C18World) {
+    let n = w.n.max(1);
+    let side = (n as f64).sqrt().ceil() as u64;
+    let mk = |dx: f64| MultiPolygon((0..n).map(|k| Polygon::new(square(3.0 * (k % side) as f64 + dx, 3.0 * (k / side) as f64 + dx, 1.0), vec![])).collect::<Vec<_>>());
+    let (a, b) = (mk(0.0), mk(0.5));
+    marker(&format!("boolean grid {} parts={} edges={}", w.op, n, 8 * n));
+    let r = match w.op.as_str() {
+        "intersection" => a.intersection(&b),
+        "difference" => a.difference(&b),
+        "xor" => a.xor(&b),
+        _ => a.union(&b),
+    };
+    marker(&format!("returned polygons={}", r.0.len()));
+}
+
 fn boolean_scenario(w: &C18World) {
     let teeth = w.n;
     let c = comb(teeth);
@@ -434,6 +486,8 @@ pub fn child_main(arg: &str) -> i32 {
             "tree" => tree_scenario(&w, T::new(pk_cmp as fn(&PK, &PK) -> Ordering)),
             "set" => tree_scenario(&w, S::new(pk_cmp as fn(&PK, &PK) -> Ordering)),
             "boolean_stairs" => stairs_scenario(&w),
+            "boolean_nested" => nested_scenario(&w),
+            "boolean_grid" => grid_scenario(&w),
             _ => boolean_scenario(&w),
         }
         depth()
@@ -465,7 +519,7 @@ impl World for C18World {
         }
         let mut r = Rng::stream(seed, "workload");
         let big = if tier == Tier::Thorough { 3_000_000 } else { 1_500_000 };
-        let kind = *r.pick(&["tree", "set", "tree", "set", "tree", "set", "boolean", "boolean_stairs"]);
+        let kind = *r.pick(&["tree", "set", "tree", "set", "tree", "set", "tree", "set", "boolean", "boolean_stairs", "boolean_nested", "boolean_grid"]);
         let n = if kind.starts_with("boolean") { 20_000 + r.below(130_000) } else { 100_000 + r.below(big) };
         let mut fr = Rng::stream(seed, "faults");
         C18World {
@@ -478,7 +532,11 @@ impl World for C18World {
             post_count: 1 + r.below(2000),
             teardown: (*r.pick(&TEARDOWNS)).into(),
             partial: r.below(n + 1),
-            op: if kind == "boolean_stairs" { (*r.pick(&["union", "xor"])).into() } else { (*r.pick(&["intersection", "difference"])).into() },
+            op: match kind {
+                "boolean_stairs" => (*r.pick(&["union", "xor"])).into(),
+                "boolean_nested" | "boolean_grid" => (*r.pick(&["union", "xor", "intersection", "difference"])).into(),
+                _ => (*r.pick(&["intersection", "difference"])).into(),
+            },
             first: (*r.pick(&FIRSTS)).into(),
         }
     }
@@ -528,7 +586,7 @@ impl World for C18World {
                 st.inc("fault_cancelled_consumption");
             }
         } else {
-            st.add("boolean_input_edges", 4 * self.n + 2);
+            st.add("boolean_input_edges", if self.kind == "boolean_grid" { 8 * self.n } else { 4 * self.n + 2 });
         }
         let mut dh = LogHash::new();
         dh.add_bytes(format!("{}/{}/{}/{}/{}/{}/{}", self.kind, self.shape, self.teardown, self.stack_bytes, self.post, self.first, (self.n as f64).log10().floor()).as_bytes());
